@@ -27,6 +27,9 @@ import (
 
 const maxSize = p2p.TransportMessageMaxSize
 
+// Shape of one transaction: Inputs > 0: script transaction spending Inputs
+// outputs of Keys keys each, every key signing; Inputs == 0: storage
+// transaction (one input, one signature) with Extra bytes of extra.
 type Shape struct {
 	Inputs int `json:"inputs"`
 	Keys   int `json:"keys"`
@@ -37,6 +40,7 @@ type Case struct {
 	Op     string  `json:"op"` // batch | bundle | relay | send | frames | raw
 	Seed   uint64  `json:"seed,omitempty"`
 	Mode   string  `json:"mode,omitempty"` // relay | direct
+	Self   bool    `json:"self,omitempty"` // node in proposing state: the batch becomes its own snapshot
 	Shapes []Shape `json:"shapes,omitempty"`
 	Sizes  []int   `json:"sizes,omitempty"`
 	N      int     `json:"n,omitempty"`
@@ -56,7 +60,16 @@ func zl(xs []int) string {
 
 func runBatch(c *vh.Ctx, cs Case) {
 	kind := fmt.Sprintf("batch:%s", cs.Mode)
-	f, err := newFixture(fmt.Sprintf("c31-%d", cs.Seed), cs.Mode)
+	if cs.Self {
+		kind = "batch:self-propose"
+	}
+	var f *fixture
+	var err error
+	if cs.Self {
+		f, err = newProposerFixture(fmt.Sprintf("c31-%d", cs.Seed))
+	} else {
+		f, err = newFixture(fmt.Sprintf("c31-%d", cs.Seed), cs.Mode)
+	}
 	if err != nil {
 		panic(err)
 	}
@@ -64,7 +77,10 @@ func runBatch(c *vh.Ctx, cs Case) {
 	f.reuse = true
 	need := map[int]int{}
 	for _, s := range cs.Shapes {
-		if s.Inputs > need[s.Keys] {
+		if s.Inputs == 0 {
+			f.amount = common.NewIntegerFromString("1")
+			need[1] = max(need[1], 1)
+		} else if s.Inputs > need[s.Keys] {
 			need[s.Keys] = s.Inputs
 		}
 	}
@@ -76,7 +92,12 @@ func runBatch(c *vh.Ctx, cs Case) {
 	queued := map[crypto.Hash]int{}
 	total := 0
 	for _, s := range cs.Shapes {
-		tx, err := f.buildSignedTx(s.Inputs, s.Keys, s.Extra)
+		var tx *common.VersionedTransaction
+		if s.Inputs == 0 {
+			tx, err = f.buildStorageTx(s.Extra)
+		} else {
+			tx, err = f.buildSignedTx(s.Inputs, s.Keys, s.Extra)
+		}
 		if err != nil {
 			panic(err)
 		}
@@ -90,8 +111,13 @@ func runBatch(c *vh.Ctx, cs Case) {
 	if total > 22<<20 {
 		kind += ":over-threshold"
 	}
+	if cs.Self {
+		if !f.b.LocalCanPropose() {
+			panic("fixture broken: the node is not in proposing state")
+		}
+	}
 	popped, sent, pv := f.b.RunOnce()
-	key := fmt.Sprintf("%s|%v", cs.Mode, cs.Shapes)
+	key := fmt.Sprintf("%s|%v|%v", cs.Mode, cs.Self, cs.Shapes)
 	if pv != nil {
 		c.Case(kind, key, false, cs, "")
 		msg := fmt.Sprint(pv)
@@ -101,7 +127,7 @@ func runBatch(c *vh.Ctx, cs Case) {
 		c.Fail("batch-message-exceeds-transport-maximum", fmt.Sprintf("the batcher loop panicked while sending a batch out of %d queued transactions (%d signed bytes): %s", len(cs.Shapes), total, msg), cs)
 		return
 	}
-	// messages in the order they were offered: singles during the loop, the batch last
+	// transactions sent to peers, in the order they were offered: singles during the loop, the batch last
 	var msgs []*parsedMessage
 	bad := ""
 	for _, s := range sent {
@@ -115,37 +141,124 @@ func runBatch(c *vh.Ctx, cs Case) {
 		}
 		msgs = append(msgs, pm)
 	}
-	if bad != "" || popped != len(cs.Shapes) || len(msgs) == 0 {
+	// the batch and the transactions outside it
+	var batch []*common.VersionedTransaction
+	var singles [][]*common.VersionedTransaction
+	batchLen := 0
+	if cs.Self {
+		// snapshots the node proposed for itself: singles during the loop, the batch last
+		props := f.b.PopSelfProposals()
+		if len(props) == 0 {
+			bad = "the proposing node proposed no snapshot"
+		}
+		for i, p := range props {
+			var txs []*common.VersionedTransaction
+			for _, h := range p.Transactions {
+				tx, err := f.b.CachedTransaction(h)
+				if err != nil || tx == nil {
+					bad = fmt.Sprintf("transaction %s of a self-proposed snapshot is not in the cache (%v)", h, err)
+					continue
+				}
+				txs = append(txs, tx)
+			}
+			if i == len(props)-1 {
+				batch = txs
+			} else {
+				singles = append(singles, txs)
+			}
+		}
+		for _, m := range msgs {
+			singles = append(singles, m.txs)
+		}
+	} else if len(msgs) > 0 {
+		batch = msgs[len(msgs)-1].txs
+		batchLen = msgs[len(msgs)-1].inner
+		for _, m := range msgs[:len(msgs)-1] {
+			singles = append(singles, m.txs)
+		}
+	}
+	if bad != "" || popped != len(cs.Shapes) || len(batch) == 0 {
 		c.Case(kind, key, false, cs, "")
-		c.Fail("batch-lost", fmt.Sprintf("popped %d of %d queued transactions, %d messages; %s", popped, len(cs.Shapes), len(msgs), bad), cs)
+		c.Fail("batch-lost", fmt.Sprintf("popped %d of %d queued transactions, %d messages, batch of %d; %s", popped, len(cs.Shapes), len(msgs), len(batch), bad), cs)
 		return
 	}
-	batch := msgs[len(msgs)-1]
 	var entries, adm []string
-	seen := 0
-	for _, tx := range batch.txs {
-		entries = append(entries, fmt.Sprintf("(%s, true)", vh.ZI(int64(len(tx.Marshal())))))
+	seen, signed := 0, 0
+	for _, tx := range batch {
+		n := len(tx.Marshal())
+		signed += n
+		entries = append(entries, fmt.Sprintf("(%s, true)", vh.ZI(int64(n))))
 		adm = append(adm, "true")
 		if _, ok := queued[tx.PayloadHash()]; ok {
 			seen++
 		}
 	}
-	for _, m := range msgs[:len(msgs)-1] {
-		for _, tx := range m.txs {
+	for _, txs := range singles {
+		for _, tx := range txs {
 			entries = append(entries, fmt.Sprintf("(%s, true)", vh.ZI(int64(len(tx.Marshal())))))
 			adm = append(adm, "false")
 			if _, ok := queued[tx.PayloadHash()]; ok {
 				seen++
 			}
 		}
-		if len(m.txs) != 1 {
+		if len(txs) != 1 {
 			c.Fail("batch-shape", "a transaction outside the batch was not sent alone", cs)
 		}
 	}
-	c.Case(kind, key, true, cs, vh.App("CBatch", vh.List(entries, "(Z * bool)"), vh.List(adm, "bool"), vh.ZI(int64(batch.inner))))
-	if seen != len(cs.Shapes) {
-		c.Fail("batch-lost", fmt.Sprintf("%d of %d queued transactions were sent", seen, len(cs.Shapes)), cs)
+	if cs.Self {
+		batchLen = selfProposedMessages(c, cs, f, batch, signed)
 	}
+	c.Case(kind, key, true, cs, vh.App("CBatch", vh.Bool(cs.Self), vh.List(entries, "(Z * bool)"), vh.List(adm, "bool"), vh.ZI(int64(batchLen))))
+	if seen != len(cs.Shapes) {
+		c.Fail("batch-lost", fmt.Sprintf("%d of %d queued transactions were sent or proposed", seen, len(cs.Shapes)), cs)
+	}
+}
+
+// selfProposedMessages builds, with the real builders, every message kind of
+// the snapshot exchange that carries the transactions of the snapshot the node
+// proposed for itself, and requires each to fit the transport maximum together
+// with the relay header.  Returns the length of the bundle message.
+func selfProposedMessages(c *vh.Ctx, cs Case, f *fixture, batch []*common.VersionedTransaction, signed int) int {
+	if signed >= maxSize*2/3 {
+		c.Fail("self-proposed-batch-over-budget", fmt.Sprintf("the node proposed its own snapshot over %d transactions of %d signed bytes, not below 2/3 of the transport maximum as on the forwarding path", len(batch), signed), cs)
+	}
+	s := &common.Snapshot{Version: common.SnapshotVersionCommonEncoding, NodeId: f.b.SelfId(), RoundNumber: 1,
+		References: &common.RoundLink{Self: crypto.Blake3Hash([]byte("self")), External: crypto.Blake3Hash([]byte("external"))},
+		Timestamp:  uint64(time.Now().UnixNano())}
+	for _, tx := range batch {
+		s.AddTransaction(tx.PayloadHash())
+	}
+	cosi := &crypto.CosiSignature{Mask: 1<<27 - 1}
+	signedSnap := *s
+	signedSnap.Signature = cosi
+	k := crypto.NewKeyFromSeed(bytes.Repeat([]byte{7}, 64)).Public()
+	var me, to crypto.Hash
+	me, to[0] = f.b.SelfId(), 9
+	bundleLen := 0
+	build := func(name string, fn func() []byte) {
+		var out []byte
+		pan, pv := vh.Catch(func() { out = fn() })
+		if pan {
+			c.Fail("self-proposed-batch-exceeds-transport-maximum", fmt.Sprintf("building the %s message over the self-proposed batch of %d transactions panicked: %.80v", name, len(batch), pv), cs)
+			return
+		}
+		if name == "bundle" {
+			bundleLen = len(out)
+		}
+		c.Count("self-propose:" + name)
+		var relayed []byte
+		rpan, _ := vh.Catch(func() { relayed = p2p.VerifBuildRelayMessage(me, to, out) })
+		if len(out) > maxSize || len(out)+relayHeaderSize > maxSize || rpan || len(relayed) > maxSize {
+			c.Fail("self-proposed-batch-exceeds-transport-maximum", fmt.Sprintf("the %s message over the self-proposed batch of %d transactions (%d signed bytes) is %d bytes; with the relay header it does not fit the transport maximum %d", name, len(batch), signed, len(out), maxSize), cs)
+		}
+	}
+	build("bundle", func() []byte { return p2p.VerifBuildTransactionsMessage(batch, p2p.PeerMessageTypeTransactionBundle) })
+	build("finalized bundle", func() []byte {
+		return p2p.VerifBuildTransactionsMessage(batch, p2p.PeerMessageTypeFinalizedTransactionBundle)
+	})
+	build("transaction challenge", func() []byte { return p2p.VerifBuildTransactionChallengeMessage(s.PayloadHash(), cosi, batch) })
+	build("full challenge", func() []byte { return p2p.VerifBuildFullChallengeMessage(&signedSnap, &k, &k, batch) })
+	return bundleLen
 }
 
 // ---- builders on sizes ----------------------------------------------------------------
@@ -387,7 +500,9 @@ func repeatShape(n int, s Shape) []Shape {
 func main() {
 	c := vh.Start("C31")
 	c.Rep.Rule = "batches: real signed script transactions (i inputs spending k-key outputs, every key signing, e bytes of extra) queued on a " +
-		"real node and processed by the real batcher loop; random small batches, one batch of 6 transactions of 238x256 signatures " +
+		"real node and processed by the real batcher loop, on the forwarding path and with the node in proposing state (peers' sync points " +
+		"known: the batch becomes its own snapshot, whose bundle / challenge messages are then built by the real builders; one batch of " +
+		"ten 4 MB storage transactions); random small batches, one batch of 6 transactions of 238x256 signatures " +
 		"(24 MB signed, crosses the 2/3 threshold) in the quick tier and the 9-transaction batch (36 MB signed, F8 shape) in the " +
 		"thorough and search tiers; bundle/relay builders on random sizes and at the maximum +-1; QUIC loopback frames of sizes " +
 		"0,1,..,max,max+1 and raw headers (wrong version, size = limit, limit+1, 2^32-1). Non-trivial = the loop sent a batch / the " +
@@ -449,6 +564,19 @@ func main() {
 			sh[j] = Shape{r.Range(1, 6), []int{1, 2, 4, 16}[r.Intn(4)], r.Intn(200)}
 		}
 		cases = append(cases, Case{Op: "batch", Seed: r.U64(), Mode: []string{"relay", "direct"}[i%2], Shapes: sh})
+	}
+	// the node proposes itself: ten storage transactions of about 4 MB each (40 MB signed)
+	cases = append(cases, Case{Op: "batch", Seed: 11, Mode: "relay", Self: true, Shapes: repeatShape(10, Shape{0, 0, 4000000})})
+	for i := 0; i < c.Scale(1, 10); i++ {
+		n := r.Range(1, 12)
+		sh := make([]Shape, n)
+		for j := range sh {
+			sh[j] = Shape{r.Range(1, 6), []int{1, 2, 4, 16}[r.Intn(4)], r.Intn(200)}
+			if r.Chance(1, 3) {
+				sh[j] = Shape{0, 0, r.Range(300, 200000)}
+			}
+		}
+		cases = append(cases, Case{Op: "batch", Seed: r.U64(), Mode: "relay", Self: true, Shapes: sh})
 	}
 	switch c.Tier {
 	case "quick":
